@@ -121,7 +121,7 @@ func TestC13WriterSink(t *testing.T) {
 		// how the bytes got into the event: as a literal table, through FormattedAs, through FormattedAs after an
 		// earlier value for the same format (the last writer wins, also when it writes nil), or into an event derived
 		// from another event's Format() result which is then re-formatted
-		via := rapid.SampledFrom([]string{"literal", "literal", "FormattedAs", "overwrite", "derived"}).Draw(t, "via")
+		via := rapid.SampledFrom([]string{"literal", "literal", "FormattedAs", "overwrite", "derived", "map-edit"}).Draw(t, "via")
 		mkEvent := func(tb map[string][]byte, i int) *eventlogger.Event {
 			switch via {
 			case "FormattedAs", "overwrite":
@@ -135,6 +135,14 @@ func TestC13WriterSink(t *testing.T) {
 						continue
 					}
 					ev.FormattedAs(k, v)
+				}
+				return ev
+			case "map-edit":
+				// a node stored a value through FormattedAs, a later node rewrites the exported table entry directly
+				ev := &eventlogger.Event{Type: "t"}
+				for k, v := range tb {
+					ev.FormattedAs(k, []byte(fmt.Sprintf("<%d>VALUE-BEFORE-THE-DIRECT-EDIT-OF-%s", i, k)))
+					ev.Formatted[k] = v
 				}
 				return ev
 			case "derived":
